@@ -28,6 +28,6 @@ def run(tier, seed):
                                                  "parser, and checks the recorded decode-equality and error-passthrough flags"},
                                  ["messages are seeded random struct/list/value trees, wrappers, datastore entities, messages with unknown fields, empty and 100-400 byte payloads; field numbers stay below 2^25 (TLC integers are 32-bit)",
                                   "message equality after decoding is judged by proto.Equal plus byte equality of the remaining unknown fields in the harness (TLC has no protobuf semantics)"],
-                                 t0, outp, "checksum")
+                                 t0, outp, "checksum", level="other")
     finally:
         scratch.cleanup()
